@@ -31,11 +31,12 @@ fn without_initiators(source: &[char]) -> Span {
 
 /// Follows Markdown's fenced code blocks through the lines of a comment.
 ///
-/// A block opened with backticks is closed by backticks and one opened with tildes by tildes:
-/// the other kind of fence is ordinary content while a block is open.
+/// A block is closed by a fence of the kind that opened it (backticks or tildes) that is at least
+/// as long and has nothing behind it; anything else is content while a block is open.
 #[derive(Default)]
 struct CodeFenceTracker {
-    open_fence: Option<char>,
+    /// The character and length of the fence that opened the current block.
+    open_fence: Option<(char, usize)>,
 }
 
 impl CodeFenceTracker {
@@ -43,16 +44,22 @@ impl CodeFenceTracker {
     /// Returns whether the line is part of a fenced code block that is still open after it.
     fn line_is_fenced(&mut self, line: &[char]) -> bool {
         let actual = without_initiators(line);
+        let content = actual.get_content(line);
 
-        let fence = match actual.get_content(line) {
+        let fence = match content {
             ['`', '`', '`', ..] => Some('`'),
             ['~', '~', '~', ..] => Some('~'),
             _ => None,
-        };
+        }
+        .map(|c| (c, content.iter().take_while(|x| **x == c).count()));
 
         match (self.open_fence, fence) {
             (None, Some(_)) => self.open_fence = fence,
-            (Some(open), Some(fence)) if open == fence => self.open_fence = None,
+            (Some((open, open_len)), Some((c, len)))
+                if open == c && len >= open_len && content[len..].iter().all(|x| x.is_whitespace()) =>
+            {
+                self.open_fence = None
+            }
             _ => (),
         }
 
